@@ -143,6 +143,31 @@ Theorem c10_replay_memory_monotone :
 Proof. exact m_replay_memory. Qed.
 Print Assumptions c10_replay_memory_monotone.
 
+(* A colony of membranes (operations addressed to one membrane, antibody
+   transfer dst.import_antibodies(src.export_antibodies()), a shared clock):
+   (1,2) an operation, or any history, that is not addressed to membrane j - not
+   an operation on j, not a transfer INTO j, not a clock tick - leaves j's state
+   exactly as it was, transfers OUT of j included;
+   (3) hence every later decision of j is unchanged: whatever happened to the
+   other membranes in between, j's own operations (and clock ticks) then produce
+   the same results and the same state as if nothing had happened;
+   (4) a transfer gives dst exactly import(values held by src at that moment):
+   import copies values, so by (1-3) a later re-learn / forget / threshold change
+   on src cannot reach dst. *)
+Theorem c10_membranes_isolated :
+  (forall sys o j, touches j o = false -> nth_error (fst (sys_step sys o)) j = nth_error sys j) /\
+  (forall sys others j, forallb (fun o => negb (touches j o)) others = true ->
+     nth_error (fst (sys_run sys others)) j = nth_error sys j) /\
+  (forall sys others mine j,
+     forallb (fun o => negb (touches j o)) others = true -> forallb (local_to j) mine = true ->
+     snd (sys_run (fst (sys_run sys others)) mine) = snd (sys_run sys mine) /\
+     nth_error (fst (sys_run (fst (sys_run sys others)) mine)) j = nth_error (fst (sys_run sys mine)) j) /\
+  (forall sys s d ms md, nth_error sys s = Some ms -> nth_error sys d = Some md ->
+     nth_error (fst (sys_step sys (STransfer s d))) d =
+     Some (mkMember (mb_cfg md) (fst (mstep (mb_cfg md) (mb_st md) (OImport (m_learned (mb_st ms))))))).
+Proof. exact membranes_isolated_all. Qed.
+Print Assumptions c10_membranes_isolated.
+
 (* With a monotone clock, in any history from a fresh membrane with
    rate_limit = n, every window [a, a + 60 s) contains at most max(0, n)
    requests that passed the rate check (admitted = not RateLimited; allowed
